@@ -222,5 +222,407 @@ class ArgParseFamily:
         return 0
 
 
+# ---------------------------------------------------------------------------------------------
+# Generic pipeline for the families whose scenarios carry their own declaration
+# ---------------------------------------------------------------------------------------------
+
+def parse_scn(out):
+    scns = []
+    for m in re.finditer(r'^"SCN (.*)"$', out, re.M):
+        scns.append(json.loads(m.group(1).replace('\\"', '"').replace('\\\\', '\\')))
+    return scns
+
+
+class SimpleFamily:
+    """mc_module/mc_cfg(tier): exhaustive model that also emits SCN lines; gen_cmd(tier, seed): harness generator;
+    trace_module: judges records; domkeys: stat keys summed into in_property_domain."""
+    fam = ''
+    mc_module = ''
+    trace_module = ''
+    props = []
+    domkeys = []
+    assumptions = []
+    extra_spec_files = ()
+
+    def mc_cfg(self, ctx):
+        raise NotImplementedError
+
+    def gen_args(self, ctx):
+        raise NotImplementedError
+
+    def sample(self, r):
+        return conv({k: v for k, v in r.items() if k != 'obs'} | {'real_outcome': conv(r.get('obs', {}))})
+
+    def describe(self, r):
+        return json.dumps(conv({k: v for k, v in r.items() if k not in ('obs',)}), ensure_ascii=False)[:400]
+
+    def mc(self, ctx):
+        d = ctx.specdir('mc')
+        self.prepare_mc(ctx, d)
+        cfg, info, workers = self.mc_cfg(ctx)
+        rc, out = ctx.tlc(d, self.mc_module, cfg, workers=workers, timeout=3000)
+        if not ctx.tlc_ok(out):
+            raise Infra('exhaustive model check did not complete cleanly:\n' + ctx.tlc_error_summary(out))
+        states, gen = ctx.tlc_counts(out)
+        return states, gen, parse_scn(out), info
+
+    def prepare_mc(self, ctx, d):
+        pass
+
+    def validate(self, ctx, name, rec):
+        return ctx.validate(name, self.trace_module, rec, os.devnull, self.props, extra_files=self.extra_spec_files)
+
+    def run(self, ctx):
+        prop = ctx.prop
+        mc_states, mc_trans, scns, mcinfo = self.mc(ctx)
+        ctx.log('exhaustive model: %d distinct states, %d scenarios enumerated' % (mc_states, len(scns)))
+        bad_all, samples, domcount, drift, mc_records, stats_all = [], [], 0, 0, 0, {}
+        if scns:
+            scen = os.path.join(ctx.work, 'mc_scen.ndjson')
+            with open(scen, 'w') as f:
+                for i, sc in enumerate(scns, 1):
+                    sc['id'] = i
+                    f.write(json.dumps(sc) + '\n')
+            rec = os.path.join(ctx.work, 'mc_rec.ndjson')
+            ctx.vh('run', '-scen', scen, '-out', rec, '-workers', NCPU)
+            bad, stats, n = self.validate(ctx, 'mcv', rec)
+            mc_records = n
+            for k, v in stats.items():
+                stats_all[k] = stats_all.get(k, 0) + v
+            drift += len(bad.get('DRIFT', []))
+            lines = open(rec).read().splitlines()
+            for i in bad[prop]:
+                bad_all.append(('mc', i, lines[i - 1]))
+            samples += [self.sample(json.loads(lines[k])) for k in (len(lines) // 3, 2 * len(lines) // 3) if lines]
+            ctx.log('replayed %d TLC-enumerated scenarios on the real code: %d disagree on %s' % (n, len(bad[prop]), prop))
+        ctx.vh(*self.gen_args(ctx))
+        rrec = os.path.join(ctx.work, 'r_rec.ndjson')
+        ctx.vh('run', '-scen', 'r_scen.ndjson', '-out', rrec, '-workers', NCPU)
+        bad, stats, rn = self.validate(ctx, 'rv', rrec)
+        for k, v in stats.items():
+            stats_all[k] = stats_all.get(k, 0) + v
+        drift += len(bad.get('DRIFT', []))
+        rlines = open(rrec).read().splitlines()
+        for i in bad[prop]:
+            bad_all.append(('random', i, rlines[i - 1]))
+        samples += [self.sample(json.loads(rlines[k])) for k in (0, len(rlines) // 2) if rlines]
+        domcount = sum(stats_all.get(k, 0) for k in self.domkeys)
+        ctx.log('validated %d recorded random scenarios: %d disagree on %s; stats %s' % (rn, len(bad[prop]), prop, stats_all))
+        viol, known_hits = 0, {}
+        for src, i, line in bad_all:
+            r = json.loads(line)
+            kf = self.classify(ctx, r, line)
+            if kf:
+                known_hits.setdefault(kf['name'], [0, kf])[0] += 1
+                continue
+            viol += 1
+            if viol <= 5:
+                path = ctx.save_replay('%s%d' % (src, i), line)
+                print('VIOLATION property=%s replay=%s' % (prop, path), flush=True)
+                print('  ' + self.describe(r), flush=True)
+        for name, (cnt, kf) in known_hits.items():
+            print('KNOWN-FINDING: property=%s %s (%d scenarios of this run)' % (prop, kf['what_fails'], cnt), flush=True)
+        cov = {'states': max(mc_states, 1), 'transitions': max(mc_trans, 1), 'traces_validated_against_impl': mc_records + rn,
+               'samples': samples[:5], 'exhaustive': False, 'mc_bounds': mcinfo, 'mc_scenarios_replayed_on_impl': mc_records,
+               'random_scenarios_recorded_and_validated': rn, 'in_property_domain': domcount, 'class_counts': stats_all,
+               'model_drift_records': drift, 'known_finding_hits': {k: v[0] for k, v in known_hits.items()}, 'rule': self.rule}
+        ctx.evidence(cov, viol, self.assumptions)
+        return 1 if viol else 0
+
+    def classify(self, ctx, r, line):
+        for kf in ctx.known:
+            if kf.get('status') != 'known' or ctx.prop not in kf['properties'] or kf.get('family') != self.fam:
+                continue
+            d = ctx.specdir('kf')
+            open(os.path.join(d, 'trace.ndjson'), 'w').write(line + '\n')
+            cfg = 'SPECIFICATION Spec\nCONSTANT Defects = {"%s"}\nCHECK_DEADLOCK FALSE\nPOSTCONDITION Post\n' % kf['switch']
+            rc, out = ctx.tlc(d, self.trace_module, cfg, workers=1, timeout=600, heap='2g')
+            m = re.search(r'<<\s*"VERIF-BAD",\s*"%s",\s*\{([^}]*)\}\s*>>' % ctx.prop, out)
+            if m is not None and m.group(1).strip() == '' and self.shape_ok(kf, r):
+                return kf
+        return None
+
+    def shape_ok(self, kf, r):
+        return True
+
+    def replay(self, ctx, path):
+        obj = json.load(open(path))
+        rec = obj['record']
+        rec.pop('obs', None)
+        open(os.path.join(ctx.work, 's.ndjson'), 'w').write(json.dumps(rec) + '\n')
+        ctx.vh('run', '-scen', 's.ndjson', '-out', 'r.ndjson', '-workers', 1)
+        bad, stats, n = self.validate(ctx, 'rp', os.path.join(ctx.work, 'r.ndjson'))
+        r = json.loads(open(os.path.join(ctx.work, 'r.ndjson')).read())
+        print('scenario:', self.describe(r))
+        print('real    :', json.dumps(conv(r['obs']), ensure_ascii=False)[:1500])
+        print('judged bad for:', [p for p in bad if bad[p]])
+        if bad[ctx.prop]:
+            print('VIOLATION property=%s replay=%s' % (ctx.prop, path))
+            return 1
+        return 0
+
+
+class ClosestFamily(SimpleFamily):
+    fam = 'closest'
+    mc_module = 'MC_Closest'
+    trace_module = 'Trace_Closest'
+    props = ['C20', 'DRIFT']
+    domkeys = ['suggest', 'enum']
+    rule = ('a scenario is (command names with hidden marks, given word or none); exhaustive part: all words and name pairs up to mc_bounds.maxl '
+            'over mc_bounds.alpha, random part: dictionary and random names with 1-3 edits of a declared name; suggest/enum count the scenarios '
+            'whose allowed outcomes contain a suggestion / an enumeration')
+    assumptions = ['any nearest visible command may be the one suggested (ties are not ordered by the property)',
+                   'command names are free of ", " and " or " so that the enumeration in the message can be split']
+
+    def mc_cfg(self, ctx):
+        maxl = 4 if ctx.tier == 'thorough' else 3
+        alpha = '{97, 98, 233, 19990}' if ctx.tier == 'thorough' else '{97, 98, 233}'
+        cfg = ('SPECIFICATION Spec\nCONSTANTS\n  Defects = {}\n  Alpha = %s\n  MaxL = %d\n  Emit = TRUE\n'
+               'INVARIANTS Metric Diagnosis EmitScn\nCHECK_DEADLOCK FALSE\n' % (alpha, maxl))
+        return cfg, dict(alpha=alpha, maxl=maxl), NCPU
+
+    def gen_args(self, ctx):
+        n = 300000 if ctx.tier == 'thorough' else 20000
+        return ['gen-closest', '-seed', ctx.seed, '-n', n, '-scen', 'r_scen.ndjson']
+
+
+# ---------------------------------------------------------------------------------------------
+# Session family (Ini.tla + ArgParse.tla): C05 C12 C13 C14 C15(ini part)
+# ---------------------------------------------------------------------------------------------
+
+SESSION_PROPS = ['C05', 'C12', 'C13', 'C14', 'C15', 'DRIFT']
+SESSION = {
+    # prop: (mc module, mode, decls quick, decls thorough, maxlines quick/thorough, generator kind, domain stat key)
+    'C14': dict(mc='MC_Ini', mode='read', decls=([1, 11], [1, 3, 11]), maxlines=(2, 3), kind='robust', dom='ini', invs='ReadInvariants'),
+    'C13': dict(mc='MC_Ini', mode='equiv', decls=([2, 3, 11], [1, 2, 3, 8, 11]), maxlines=(2, 2), kind='equiv', dom='eqv', invs='EquivInvariant'),
+    'C12': dict(mc='MC_Ini', mode='trip', decls=([11, 8], [1, 2, 8, 9, 11]), maxlines=(2, 2), kind='roundtrip', dom='rt', invs='TripInvariant'),
+    'C05': dict(mc='MC_Sources', mode='', decls=([12], [12, 11]), maxlines=(0, 0), kind='sources', dom='src', invs='Precedence'),
+}
+SESSION_RANDOM = {'quick': (60, 50), 'thorough': (600, 100)}
+
+
+class SessionFamily:
+    fam = 'session'
+
+    def mc(self, ctx, prop):
+        c = SESSION[prop]
+        th = ctx.tier == 'thorough'
+        d = ctx.specdir('mc')
+        cat = os.path.join(ROOT, 'catalog', 'argparse.ndjson')
+        ctx.vh('decls', '-trees', cat, '-decls', os.path.join(d, 'catalog_decls.ndjson'))
+        decls = c['decls'][1 if th else 0]
+        ml = c['maxlines'][1 if th else 0]
+        if c['mc'] == 'MC_Ini':
+            cfg = ('SPECIFICATION Spec\nCONSTANTS\n  Defects = {}\n  Mode = "%s"\n  DeclIds = {%s}\n  MaxLines = %d\n  Emit = TRUE\n'
+                   'INVARIANTS %s EmitScn\nCHECK_DEADLOCK FALSE\n' % (c['mode'], ', '.join(map(str, decls)), ml, c['invs']))
+        else:
+            cfg = ('SPECIFICATION Spec\nCONSTANTS\n  Defects = {}\n  DeclIds = {%s}\n  Emit = TRUE\nINVARIANTS %s EmitScn\nCHECK_DEADLOCK FALSE\n'
+                   % (', '.join(map(str, decls)), c['invs']))
+        rc, out = ctx.tlc(d, c['mc'], cfg, workers=NCPU, timeout=3000)
+        if not ctx.tlc_ok(out):
+            raise Infra('exhaustive model check did not complete cleanly:\n' + ctx.tlc_error_summary(out))
+        states, gen = ctx.tlc_counts(out)
+        return states, gen, parse_scn(out), d, dict(module=c['mc'], mode=c['mode'], decls=decls, maxlines=ml)
+
+    def sample(self, line):
+        r = json.loads(line)
+        calls = []
+        for c in r['calls']:
+            cc = {'op': c['op']}
+            if c['op'] == 'ini':
+                cc['text'] = cps2s(c.get('text', []))[:300]
+                cc['asDefaults'] = c.get('asDefaults', False)
+                if c.get('fromWrite'):
+                    cc['fromWrite'] = c['fromWrite']
+            if c['op'] == 'args':
+                cc['argv'] = [cps2s(t) for t in c.get('argv', [])]
+            if c['op'] == 'write':
+                cc['iniOpts'] = c.get('iniOpts', [])
+            calls.append(cc)
+        obs = [{'errKind': o['errKind'], 'line': o['line']} for o in r.get('obs', [])]
+        return {'decl': r['decl'], 'popts': r['popts'], 'env': conv(r['env']), 'presets': conv(r.get('presets', [])), 'calls': calls, 'real_outcome_per_call': obs, 'tags': r['tags']}
+
+    def random_part(self, ctx, prop, kind, repeat=50):
+        nt, per = SESSION_RANDOM[ctx.tier]
+        ctx.vh('gen-session', '-seed', ctx.seed, '-ntrees', nt, '-per', per, '-kind', kind, '-repeat', repeat,
+               '-trees', 'r_trees.ndjson', '-decls', 'r_decls.ndjson', '-scen', 'r_scen.ndjson')
+        ctx.vh('run', '-trees', 'r_trees.ndjson', '-scen', 'r_scen.ndjson', '-out', 'r_rec.ndjson', '-workers', NCPU)
+        rrec = os.path.join(ctx.work, 'r_rec.ndjson')
+        bad, stats, rn = ctx.validate('rv', 'Trace_Session', rrec, os.path.join(ctx.work, 'r_decls.ndjson'), SESSION_PROPS)
+        return bad, stats, rn, open(rrec).read().splitlines(), open(os.path.join(ctx.work, 'r_trees.ndjson')).read().splitlines()
+
+    def run(self, ctx):
+        prop = ctx.prop
+        c = SESSION[prop]
+        assumptions = [
+            'the order in which go-flags applies the sections of one file is not fixed by the documentation: an observation is accepted if it equals the specification\'s outcome for some order (C15 judges the dependence itself)',
+            'string values are specified over ASCII plus the printable / non-printable samples of Quote.tla; escapes outside Quote.tla are grey (no verdict)',
+            'TLC explores the bounded model exhaustively; bounds under coverage.mc_bounds',
+        ]
+        mc_states, mc_trans, scns, d, mcinfo = self.mc(ctx, prop)
+        ctx.log('exhaustive model: %d distinct states, %d scenarios enumerated' % (mc_states, len(scns)))
+        bad_all, samples, stats_all, drift, mc_records = [], [], {}, 0, 0
+        cat = os.path.join(ROOT, 'catalog', 'argparse.ndjson')
+        if scns:
+            scen = os.path.join(ctx.work, 'mc_scen.ndjson')
+            with open(scen, 'w') as f:
+                for i, s in enumerate(scns, 1):
+                    s['id'] = i
+                    f.write(json.dumps(s) + '\n')
+            rec = os.path.join(ctx.work, 'mc_rec.ndjson')
+            ctx.vh('run', '-trees', cat, '-scen', scen, '-out', rec, '-workers', NCPU)
+            bad, stats, n = ctx.validate('mcv', 'Trace_Session', rec, os.path.join(d, 'catalog_decls.ndjson'), SESSION_PROPS)
+            mc_records = n
+            for k, v in stats.items():
+                stats_all[k] = stats_all.get(k, 0) + v
+            drift += len(bad['DRIFT'])
+            lines = open(rec).read().splitlines()
+            trees = open(cat).read().splitlines()
+            for i in bad[prop]:
+                bad_all.append(('mc', i, lines[i - 1], trees, os.path.join(d, 'catalog_decls.ndjson')))
+            samples += [self.sample(lines[k]) for k in (len(lines) // 3, 2 * len(lines) // 3) if lines]
+            ctx.log('replayed %d TLC-enumerated scenarios on the real code: %d disagree on %s' % (n, len(bad[prop]), prop))
+        bad, stats, rn, rlines, rtrees = self.random_part(ctx, prop, c['kind'])
+        for k, v in stats.items():
+            stats_all[k] = stats_all.get(k, 0) + v
+        drift += len(bad['DRIFT'])
+        for i in bad[prop]:
+            bad_all.append(('random', i, rlines[i - 1], rtrees, os.path.join(ctx.work, 'r_decls.ndjson')))
+        samples += [self.sample(rlines[k]) for k in (0, len(rlines) // 2) if rlines]
+        ctx.log('validated %d recorded random sessions: %d disagree on %s; stats %s; drift %d' % (rn, len(bad[prop]), prop, stats_all, drift))
+        return self.finish(ctx, bad_all, samples, stats_all, drift, mc_states, mc_trans, mc_records, rn, mcinfo, c['dom'], assumptions)
+
+    def finish(self, ctx, bad_all, samples, stats_all, drift, mc_states, mc_trans, mc_records, rn, mcinfo, domkey, assumptions):
+        prop = ctx.prop
+        viol, known_hits = 0, {}
+        for src, i, line, trees, declsfile in bad_all:
+            r = json.loads(line)
+            kf = self.classify(ctx, r, line, declsfile)
+            if kf:
+                known_hits.setdefault(kf['name'], [0, kf])[0] += 1
+                continue
+            viol += 1
+            if viol <= 5:
+                path = ctx.save_replay('%s%d' % (src, i), line, trees[r['decl'] - 1])
+                print('VIOLATION property=%s replay=%s' % (prop, path), flush=True)
+                print('  ' + json.dumps(self.sample(line), ensure_ascii=False)[:600], flush=True)
+        for name, (cnt, kf) in known_hits.items():
+            print('KNOWN-FINDING: property=%s %s (%d scenarios of this run)' % (prop, kf['what_fails'], cnt), flush=True)
+        cov = {'states': max(mc_states, 1), 'transitions': max(mc_trans, 1), 'traces_validated_against_impl': mc_records + rn,
+               'samples': samples[:5], 'exhaustive': False, 'mc_bounds': mcinfo, 'mc_scenarios_replayed_on_impl': mc_records,
+               'random_scenarios_recorded_and_validated': rn, 'in_property_domain': stats_all.get(domkey, 0), 'class_counts': stats_all,
+               'model_drift_records': drift, 'known_finding_hits': {k: v[0] for k, v in known_hits.items()},
+               'rule': 'a scenario is a history of API calls (INI read in normal / as-defaults mode, ParseArgs, INI write, fresh parser) on one declaration with environment and presets; the exhaustive part enumerates the cases of mc_bounds, the random part builds INI texts addressing random declarations in every naming form with noise and single faults; class_counts: ini = INI reads judged, inierr = of which fail, rt = round trips in the domain, src = source histories, eqv = entry/flag pairs, multi = reads whose outcome depends on section order'}
+        ctx.evidence(cov, viol, assumptions)
+        return 1 if viol else 0
+
+    def classify(self, ctx, r, line, declsfile):
+        for kf in ctx.known:
+            if kf.get('status') != 'known' or ctx.prop not in kf['properties'] or kf.get('family') != 'session':
+                continue
+            d = ctx.specdir('kf')
+            open(os.path.join(d, 'trace.ndjson'), 'w').write(line + '\n')
+            shutil.copy(declsfile, os.path.join(d, 'decls.ndjson'))
+            cfg = 'SPECIFICATION Spec\nCONSTANT Defects = {%s}\nCHECK_DEADLOCK FALSE\nPOSTCONDITION Post\n' % ', '.join('"%s"' % x for x in kf['switch'].split('+'))
+            rc, out = ctx.tlc(d, 'Trace_Session', cfg, workers=1, timeout=600, heap='2g')
+            m = re.search(r'<<\s*"VERIF-BAD",\s*"DRIFT",\s*\{([^}]*)\}\s*>>', out)
+            if m is not None and m.group(1).strip() == '':
+                return kf
+        return None
+
+    def replay(self, ctx, path):
+        obj = json.load(open(path))
+        rec, tree = obj['record'], obj['tree']
+        tree['id'] = 1
+        rec['decl'] = 1
+        rec.pop('obs', None)
+        open(os.path.join(ctx.work, 't.ndjson'), 'w').write(json.dumps(tree) + '\n')
+        open(os.path.join(ctx.work, 's.ndjson'), 'w').write(json.dumps(rec) + '\n')
+        ctx.vh('decls', '-trees', 't.ndjson', '-decls', 'd.ndjson')
+        ctx.vh('run', '-trees', 't.ndjson', '-scen', 's.ndjson', '-out', 'r.ndjson', '-workers', 1)
+        bad, stats, n = ctx.validate('rp', 'Trace_Session', os.path.join(ctx.work, 'r.ndjson'), os.path.join(ctx.work, 'd.ndjson'), SESSION_PROPS)
+        line = open(os.path.join(ctx.work, 'r.ndjson')).read().splitlines()[0]
+        print(json.dumps(self.sample(line), ensure_ascii=False, indent=1))
+        r = json.loads(line)
+        for k, o in enumerate(r['obs'], 1):
+            print('call', k, 'real:', json.dumps(conv({kk: vv for kk, vv in o.items() if kk not in ('text', 'lines')}), ensure_ascii=False)[:800])
+            if o.get('lines'):
+                print('   written:', [cps2s(x) for x in o['lines']][:40])
+        print('judged bad for:', [p for p in bad if bad[p]])
+        if bad[ctx.prop]:
+            print('VIOLATION property=%s replay=%s' % (ctx.prop, path))
+            return 1
+        return 0
+
+
+class DeterminismFamily(SessionFamily):
+    """C15: TLC finds the inputs whose outcome depends on the order of a map iteration in the model; the real code is run
+    repeatedly on them (and on seeded random sessions) and must give one observation."""
+
+    def run(self, ctx):
+        prop = 'C15'
+        th = ctx.tier == 'thorough'
+        d = ctx.specdir('mc')
+        cat = os.path.join(ROOT, 'catalog', 'argparse.ndjson')
+        ctx.vh('decls', '-trees', cat, '-decls', os.path.join(d, 'catalog_decls.ndjson'))
+        decls = [1, 3, 11] if th else [11]
+        cfg = ('SPECIFICATION Spec\nCONSTANTS\n  Defects = {}\n  Mode = "order"\n  DeclIds = {%s}\n  MaxLines = %d\n  Emit = TRUE\n'
+               'INVARIANTS EmitScn\nCHECK_DEADLOCK FALSE\n' % (', '.join(map(str, decls)), 4 if th else 3))
+        rc, out = ctx.tlc(d, 'MC_Ini', cfg, workers=NCPU, timeout=3000)
+        if not ctx.tlc_ok(out):
+            raise Infra('exhaustive model check did not complete cleanly:\n' + ctx.tlc_error_summary(out))
+        mc_states, mc_trans = ctx.tlc_counts(out)
+        scns = parse_scn(out)
+        if len(scns) > (20000 if th else 1500):
+            import random
+            random.Random(ctx.seed).shuffle(scns)
+            scns = scns[:(20000 if th else 1500)]
+        ctx.log('model: %d files examined, %d order-sensitive ones selected for repeated execution' % (mc_states, len(scns)))
+        bad_all, samples, stats_all, drift, mc_records = [], [], {}, 0, 0
+        rep = 2000 if th else 200
+        if scns:
+            scen = os.path.join(ctx.work, 'mc_scen.ndjson')
+            with open(scen, 'w') as f:
+                for i, s in enumerate(scns, 1):
+                    s['id'] = i
+                    s['repeat'] = rep
+                    f.write(json.dumps(s) + '\n')
+            rec = os.path.join(ctx.work, 'mc_rec.ndjson')
+            ctx.vh('run', '-trees', cat, '-scen', scen, '-out', rec, '-workers', NCPU)
+            bad, stats, n = ctx.validate('mcv', 'Trace_Session', rec, os.path.join(d, 'catalog_decls.ndjson'), SESSION_PROPS)
+            mc_records = n
+            stats_all.update(stats)
+            lines = open(rec).read().splitlines()
+            trees = open(cat).read().splitlines()
+            for i in bad[prop]:
+                bad_all.append(('mc', i, lines[i - 1], trees, os.path.join(d, 'catalog_decls.ndjson')))
+            samples += [self.sample(lines[k]) for k in (0, len(lines) // 2) if lines]
+            ctx.log('ran %d order-sensitive files x %d on the real code: %d gave more than one observation' % (n, rep, len(bad[prop])))
+        bad, stats, rn, rlines, rtrees = self.random_part(ctx, prop, 'determinism', repeat=rep // 4)
+        for k, v in stats.items():
+            stats_all[k] = stats_all.get(k, 0) + v
+        for i in bad[prop]:
+            bad_all.append(('random', i, rlines[i - 1], rtrees, os.path.join(ctx.work, 'r_decls.ndjson')))
+        samples += [self.sample(rlines[k]) for k in (0, len(rlines) // 2) if rlines]
+        ctx.log('ran %d random sessions repeatedly: %d gave more than one observation' % (rn, len(bad[prop])))
+        assumptions = ['the runtime picks map iteration orders; each scenario is executed repeatedly in one process (%d times for model-selected files) and all observations must coincide; an order dependence that shows with probability p per run is missed with probability (1-p)^runs' % rep,
+                       'help / man / completion / error-message determinism is exercised by the checks of C16-C18 and C06 through the same repetition']
+        return self.finish(ctx, bad_all, samples, stats_all, 0, mc_states, mc_trans, mc_records, rn,
+                           dict(module='MC_Ini', mode='order', decls=decls, repeat=rep), 'rep', assumptions)
+
+    def classify(self, ctx, r, line, declsfile):
+        for kf in ctx.known:
+            if kf.get('status') == 'known' and ctx.prop in kf['properties'] and kf.get('family') == 'session-order':
+                # shape: an INI read whose file has more than one section and whose model outcome is order-sensitive
+                if any(c['op'] == 'ini' and cps2s(c.get('text', [])).count('[') >= 1 for c in r['calls']) and 'order-sensitive' in r.get('tags', []) + ['order-sensitive' if 'multi-section' in r.get('tags', []) or 'two-faults' in r.get('tags', []) else '']:
+                    return kf
+        return None
+
+
 ARGFAM = ArgParseFamily()
 PROPS = {p: ARGFAM for p in ['C01', 'C02', 'C03', 'C04', 'C06', 'C07', 'C08', 'C09', 'C10']}
+PROPS['C20'] = ClosestFamily()
+SESSFAM = SessionFamily()
+for _p in ['C05', 'C12', 'C13', 'C14']:
+    PROPS[_p] = SESSFAM
+PROPS['C15'] = DeterminismFamily()
